@@ -7,6 +7,15 @@ REFUTED = []
 # plugin level (Props/C09p.v, proofs in Proofs/PluginAnswerP.v)
 PLUGIN_THEOREMS = ["bound_ip_is_configured", "plugin_tables_are_configured", "rejected_reload_changes_nothing", "failed_list_changes_nothing"]
 
+KNOWN_FINDINGS = [
+    {"id": "K9", "status": "open", "tag": "c05-rollback-delete-fails",
+     "what": "when a multi-IP request is rolled back (a creation failed, e.g. on an administrator's reservation not yet seen) and "
+             "the DELETION of an object it had created fails too, the failure is only logged: the object stays in the store while "
+             "memory forgets the IP - store and memory disagree, a new process loads the IP as allocated to a key that never got "
+             "it; attributed only to histories in which a roll-back's deletion failed and only when taking exactly those objects "
+             "out makes the predicate true (found by the thorough tier, history random, step alloc_ranges fault=3)"},
+]
+
 MANIFEST = {
     "text": "Coq theorems over all reachable crdIpam states: never_hand_reserved (every IP handed out by a fresh allocation had NO "
             "object in the store - so no reservation, seen or unseen - and lies in the loaded configuration), tables_are_configured, "
